@@ -2,6 +2,8 @@
 namespace BiotiteModel.Gen.C19
 /-- `illegal_chars` of `TreeNode.to_newick` (code points). -/
 def illegalChars : List Nat := [44, 58, 59, 40, 41]
+/-- Code points Python's `str.isspace` accepts (what `str.split()`/`strip()` remove), from the running interpreter. -/
+def whitespace : List Nat := [9, 10, 11, 12, 13, 28, 29, 30, 31, 32, 133, 160, 5760, 8192, 8193, 8194, 8195, 8196, 8197, 8198, 8199, 8200, 8201, 8202, 8232, 8233, 8239, 8287, 12288]
 /-- `neighbor_joining` raises ValueError below this many rows. -/
 def njMinNodes : Nat := 4
 end BiotiteModel.Gen.C19
